@@ -16,6 +16,16 @@ pub struct MaxReg<V> {
 /// C11: the register keeps the largest value ever applied (ties keep the current one)
 pub open spec fn max_update<V: Ord>(cur: V, val: V) -> V { if gt(val, cur) { val } else { cur } }
 
+impl<V: Default> Default for MaxReg<V> {
+//@extract fn src/maxreg.rs "Default for MaxReg" default
+    fn default() -> /*@ (r: @*/ Self /*@ ) @*/
+    //@ ensures V::default.ensures((), r.val),
+    {
+        Self { val: V::default() }
+    }
+//@end
+}
+
 impl<V: Ord> CvRDT for MaxReg<V> {
     type Validation = Infallible;
     open spec fn cv_inv(&self) -> bool { ord_ok::<V>() }
@@ -72,6 +82,14 @@ impl<V: Ord> CmRDT for MaxReg<V> {
 }
 
 impl<V: Ord> MaxReg<V> {
+//@extract fn src/maxreg.rs "MaxReg" new
+    pub fn new(&mut self, val: V) -> /*@ (r: @*/ Self /*@ ) @*/
+    //@ ensures r.val == val, *final(self) == *old(self),
+    {
+        MaxReg { val }
+    }
+//@end
+
 //@extract fn src/maxreg.rs "MaxReg" update
     pub fn update(&mut self, val: V)
     //@ requires ord_ok::<V>(),
